@@ -71,7 +71,9 @@ static inline const std::vector<std::string>& leaf_alphabet() {
                         "18446744073709551616", "-9223372036854775808", "-9223372036854775809",
                         "9223372036854775808", "1e400", "-1e400", "1e-400", "01", "1.", ".5", "-", "1e", "-e", "1e+",
                         "0x1", "00", "-01", "1.e1", "1.5e", "0e0", "0e-0", "0.e1", "123456789012345678901234567890",
-                        "0.1e-1", "1E+2", "-1.5E+2", "2.5", "12345678901234567", "1.2345678901234567e-5"};
+                        "0.1e-1", "1E+2", "-1.5E+2", "2.5", "12345678901234567", "1.2345678901234567e-5",
+                        // subnormal / extreme doubles (short spellings reach the fast float paths)
+                        "1e-310", "2.5e-320", "1.5e-308", "4.9e-324", "1.7976931348623157e308", "1797693134862315808e290", "0.00000000000000000000000000000"};
   for (auto s : nums) v.push_back(s);
   const char* lits[] = {"false", "null", "tru", "nul", "fals", "truex", "nulll", "True", "falsE", "n", "t", "f"};
   for (auto s : lits) v.push_back(s);
@@ -81,6 +83,12 @@ static inline const std::vector<std::string>& leaf_alphabet() {
                         "\"\x01\"", "\"\x1f\"", "\"\x7f\"", "\"\xff\"", "\"\xc3\xa9\"", "\"a\\u0000b\"", "\"[\"", "\"}\"", "\",\"", "\":\""};
   for (auto s : strs) v.push_back(s);
   v.push_back(std::string("\"a\0b\"", 5));
+  // a raw control byte BETWEEN two escapes (the second scanning phase of the string decoder), also
+  // beyond the first vector block
+  v.push_back("\"\\\"\x01\\u0041\"");
+  v.push_back("\"\\n\x01\\\\\"");
+  v.push_back("\"" + plain(31) + "\\n\x1f\\\\\"");
+  v.push_back("\"" + plain(15) + "\\t\x0a" + plain(3) + "\\\"\"");
   for (size_t n : {31u, 32u, 33u, 63u, 64u, 65u}) {
     v.push_back("\"" + plain(n) + "\"");
     v.push_back("\"" + plain(n - 2) + "\\n\"");
